@@ -468,7 +468,15 @@ func (b *xbuilder) addDoctype(root string) {
 			inner = append(inner, c11DtInner(post)...)
 		}
 		for k := r.Intn(4); k > 0; k-- {
-			switch r.Intn(16) {
+			switch r.Intn(20) {
+			case 16: // literals (either quote style) containing comment / PI openers and closers, ']' and '>'
+				decl("<!ENTITY open ", r.PickStr([]string{"<!--", "<?", "<!-- ]", "<?p ]>", "a<!--b"}), ">")
+			case 17:
+				decl("<!ENTITY close ", r.PickStr([]string{"-->", "?>", "]-->", "]?>", "-->]>"}), ">")
+			case 18:
+				decl("<!ATTLIST a b CDATA ", r.PickStr([]string{"-->", "?>", "]", ">", "]>", "--"}), ">")
+			case 19:
+				decl("<!ENTITY both ", r.PickStr([]string{"<!-- x -->", "<?p x?>", "<!--]>-->", "<?]>?>"}), ">")
 			case 12, 13: // a comment: its body may contain ] > quotes and markup, but no "--"
 				body := ""
 				for j := r.Intn(4); j > 0; j-- {
@@ -1332,6 +1340,9 @@ func c11HardDocs(r *Rng) []struct {
 		mk("doctype-subset-comment", "", " a [<!-- ] -->]", ""),
 		mk("doctype-subset-comment", "", " a [<!-- \" -->]", ""),
 		mk("doctype-subset-pi", "", " a [<?p ]?>]", ""),
+		mk("doctype-literal-markup", "", " a [<!ENTITY open \"<!--\">]", ""),
+		mk("doctype-literal-markup", "", " a [<!ENTITY open '<?'>]", ""),
+		mk("doctype-literal-markup", "", " a [<!ENTITY e \"<!--\"><!ENTITY f '-->'>]", ""),
 		mk("pi-content-gt", "", "", "<?p a>b?>"),
 		mk("pi-content-gt", "", "", "<?p x > y ?>"),
 		mk("pi-content-gt", "", "", "<?php if ($a > $b) { echo 1; } ?>"),
